@@ -8,6 +8,7 @@ import (
 	"os"
 	"path/filepath"
 	"reflect"
+	"regexp"
 	"strings"
 
 	"github.com/go-openapi/spec"
@@ -58,7 +59,7 @@ func newObs(c *expCase) *expObs {
 	if c.Entry == "SkipThenFull" {
 		obs.Opts.Skip = false // what is judged is the final, full expansion
 	}
-	if isElementEntry(c.Entry) && c.Entry != "ExpandSchemaWithBasePath" {
+	if isElementEntry(c.Entry) && !strings.HasPrefix(c.Entry, "ExpandSchemaWithBasePath") {
 		obs.Opts = expOpts{} // these entry points take no options: defaults apply
 	}
 	if obs.FailURL == nil {
@@ -74,7 +75,7 @@ func newObs(c *expCase) *expObs {
 }
 
 func isElementEntry(e string) bool {
-	return e != "" && e != "ExpandSpec" && e != "SkipThenFull"
+	return e != "" && e != "ExpandSpec" && e != "SkipThenFull" && e != "ExpandSpec2"
 }
 
 func elementKind(entry string) string {
@@ -265,6 +266,8 @@ func markCall() {
 	}
 }
 
+var labelRe = regexp.MustCompile(`:"n(\d+)"`)
+
 type callResult struct {
 	out                                   []byte
 	outcome, errs                         string
@@ -311,7 +314,7 @@ func callExpand(c *expCase, cc *concrete, docBytes map[string][]byte, ld *recLoa
 		return res
 	}
 	switch c.Entry {
-	case "", "ExpandSpec", "SkipThenFull":
+	case "", "ExpandSpec", "SkipThenFull", "ExpandSpec2":
 		var sw spec.Swagger
 		if err := json.Unmarshal(rootSrc, &sw); err != nil {
 			return fail("harness-error", "root does not decode: "+err.Error())
@@ -319,6 +322,15 @@ func callExpand(c *expCase, cc *concrete, docBytes map[string][]byte, ld *recLoa
 		opts := mkOpts()
 		if c.Entry == "SkipThenFull" {
 			opts.SkipSchemas = true
+		}
+		if c.Entry == "ExpandSpec2" {
+			// a first expansion of the same root with the very same options value
+			var sw0 spec.Swagger
+			_ = json.Unmarshal(rootSrc, &sw0)
+			if err0 := spec.ExpandSpec(&sw0, opts); err0 != nil {
+				return fail("error", "first of two: "+err0.Error())
+			}
+			markCall()
 		}
 		err := spec.ExpandSpec(&sw, opts)
 		if c.Entry != "SkipThenFull" {
@@ -339,7 +351,8 @@ func callExpand(c *expCase, cc *concrete, docBytes map[string][]byte, ld *recLoa
 			if err := json.Unmarshal(b, &sw2); err != nil {
 				return fail("harness-error", "skip output does not decode: "+err.Error())
 			}
-			o2 := mkOpts()
+			// the caller goes on with the options value it already has
+			o2 := opts
 			o2.SkipSchemas = false
 			markCall()
 			if err := spec.ExpandSpec(&sw2, o2); err != nil {
@@ -397,6 +410,21 @@ func callExpand(c *expCase, cc *concrete, docBytes map[string][]byte, ld *recLoa
 		cache = mc
 	case "reuse":
 		cache = shared
+	case "foreignroot":
+		// a cache that served an expansion against ANOTHER root (same shape, other labels) before
+		mc := &mapCache{m: map[string]interface{}{}}
+		decoy := labelRe.ReplaceAll(rootSrc, []byte(`:"decoy-n$1"`))
+		var dsw spec.Swagger
+		if json.Unmarshal(decoy, &dsw) == nil {
+			var ds spec.Schema
+			_ = json.Unmarshal(labelRe.ReplaceAll(elemJSON, []byte(`:"decoy-n$1"`)), &ds)
+			oldL := spec.PathLoader
+			spec.PathLoader = (&recLoader{docs: ld.docs, refuse: ld.refuse}).load
+			_ = spec.ExpandSchema(&ds, &dsw, mc)
+			spec.PathLoader = oldL
+			markCall()
+		}
+		cache = mc
 	}
 	oldLoader := spec.PathLoader
 	spec.PathLoader = ld.load
@@ -431,6 +459,18 @@ func callExpand(c *expCase, cc *concrete, docBytes map[string][]byte, ld *recLoa
 		opts := mkOpts()
 		err = spec.ExpandSchemaWithBasePath(&s, cache, opts)
 		res.optsSame = optsEq(opts)
+		outv = &s
+	case "ExpandSchemaWithBasePath:nobase":
+		// options without a RelativeBase: the documents are found relative to the working directory;
+		// the root itself is served by the loader as the pseudo document .root
+		var s spec.Schema
+		if e := json.Unmarshal(elemJSON, &s); e != nil {
+			return fail("harness-error", e.Error())
+		}
+		opts := &spec.ExpandOptions{PathLoader: ld.load, ContinueOnError: c.Opts.Cont, AbsoluteCircularRef: c.Opts.Abs}
+		err = spec.ExpandSchemaWithBasePath(&s, cache, opts)
+		res.optsSame = opts.RelativeBase == "" && opts.PathLoader != nil && opts.ContinueOnError == c.Opts.Cont &&
+			opts.AbsoluteCircularRef == c.Opts.Abs && !opts.SkipSchemas
 		outv = &s
 	case "ExpandParameterWithRoot", "ExpandParameter":
 		var pr spec.Parameter
